@@ -308,6 +308,7 @@ func (w *World) rulesParsePkg(p *Pkg, out *[]Obligation) {
 		}
 		w.rulesDenyList(p, add)
 		w.rulesSentinels(p, add)
+		w.rulesBounds(p, add)
 		return
 	}
 
@@ -544,6 +545,8 @@ func (w *World) rulesParsePkg(p *Pkg, out *[]Obligation) {
 		add(ok, "R01.case", "validate", p.FuncObj[sm.ValidateFn], why)
 		add(ok, "R09.case", "validate", p.FuncObj[sm.ValidateFn], why)
 	}
+	// ---- index safety on the input text
+	w.rulesBounds(p, add)
 	// ---- deny-list
 	w.rulesDenyList(p, add)
 	// ---- sentinels
